@@ -375,7 +375,16 @@ func genHistory(o genOpts) func(t *rapid.T) History {
 				if n < 0 || n > 6 {
 					n = rapid.IntRange(0, 6).Draw(t, "candlen")
 				}
-				h.Cands = append(h.Cands, knownColl(ty, n))
+				cand := knownColl(ty, n)
+				if ty.K == spec.KSet && n >= 2 && rapid.IntRange(0, 2).Draw(t, "unknownmembers") == 0 {
+					// a set that stores n members some of which are unknown: its
+					// final length is anywhere between 1 and n
+					k := rapid.IntRange(1, n-1).Draw(t, "nunknown")
+					for j := 0; j < k; j++ {
+						cand.Elems[n-1-j] = spec.UnknownOf(*cand.T.E)
+					}
+				}
+				h.Cands = append(h.Cands, cand)
 			case ty.K == spec.KDynamic:
 				h.Cands = append(h.Cands, rapid.SampledFrom([]spec.V{spec.KnownStr("a"), spec.KnownNum(spec.NInt(1)), spec.KnownBool(true), knownColl(spec.List(spec.String), 2), spec.NullOf(spec.String)}).Draw(t, "dyncand"))
 			default:
